@@ -169,63 +169,87 @@ def _limit(mem_gb):
 
 
 def run_cbmc(cfiles, name='', defines=(), unwind=8, unwindset=(), timeout=600, mem_gb=12, extra=(), trace_property=None, incdirs=(), flags=None):
+    """runs CBMC; plain-text UI streamed line by line for ordinary runs (cheap to parse), JSON UI only when a trace is wanted"""
     cmd = ['cbmc'] + list(cfiles) + ['-I', os.path.join(VERIF, 'rt')]
     for d in incdirs:
         cmd += ['-I', d]
-    cmd += ['-D%s' % d for d in defines] + (CBMC_FLAGS if flags is None else list(flags)) + ['--unwind', str(unwind), '--json-ui', '--verbosity', '8'] + list(extra)
+    cmd += ['-D%s' % d for d in defines] + (CBMC_FLAGS if flags is None else list(flags)) + ['--unwind', str(unwind)] + list(extra)
     if unwindset:
         cmd += ['--unwindset', ','.join(unwindset)]
     if trace_property:
-        cmd += ['--property', trace_property, '--trace']
+        cmd += ['--property', trace_property, '--trace', '--json-ui']
+    else:
+        cmd += ['--verbosity', '8']
     res = QueryResult()
     res.name = name
     res.cmd = cmd
     t0 = time.time()
-    try:
-        p = subprocess.Popen(cmd, stdout=subprocess.PIPE, stderr=subprocess.PIPE, text=True, preexec_fn=_limit(mem_gb))
+    p = subprocess.Popen(cmd, stdout=subprocess.PIPE, stderr=subprocess.STDOUT, text=True, preexec_fn=_limit(mem_gb), errors='replace')
+    killed = []
+
+    def kill():
+        killed.append(1)
         try:
-            out, err = p.communicate(timeout=timeout)
-        except subprocess.TimeoutExpired:
             os.killpg(p.pid, signal.SIGKILL)
-            p.communicate()
-            res.status = 'TIMEOUT'
-            res.wall_s = time.time() - t0
-            return res
+        except OSError:
+            pass
+    timer = threading.Timer(timeout, kill)
+    timer.start()
+    results = []
+    tail = []
+    try:
+        if trace_property:
+            out = p.stdout.read()
+        else:
+            out = None
+            in_results = False
+            for ln in p.stdout:
+                c0 = ln[:1]
+                if c0 == 'U' and ln.startswith('Unwinding loop'):
+                    continue
+                if c0 == 'N' and ln.startswith('Not unwinding'):
+                    continue
+                if c0 == 'a' and ln.startswith('aborting path'):
+                    continue
+                if c0 == '[':
+                    m = re.match(r'\[(\S+)\] (?:line \d+ )?(.*): (SUCCESS|FAILURE|UNKNOWN|ERROR)\s*$', ln)
+                    if m:
+                        results.append({'property': m.group(1), 'description': m.group(2), 'status': m.group(3)})
+                        continue
+                m = re.match(r'(\d+) variables, (\d+) clauses', ln)
+                if m:
+                    res.vars = max(res.vars, int(m.group(1)))
+                    res.clauses = max(res.clauses, int(m.group(2)))
+                    continue
+                m = re.match(r'Runtime Solver: ([0-9.]+)s', ln)
+                if m:
+                    res.solver_s += float(m.group(1))
+                    continue
+                tail.append(ln)
+                if len(tail) > 60:
+                    del tail[:20]
+        p.wait()
     finally:
-        pass
+        timer.cancel()
     res.wall_s = time.time() - t0
-    try:
-        ru = resource.getrusage(resource.RUSAGE_CHILDREN)
-        res.rss_mb = ru.ru_maxrss // 1024
-    except Exception:
-        pass
-    res.log = err[-2000:]
-    try:
-        js = json.loads(out)
-    except Exception:
-        if 'bad_alloc' in err or 'Out of memory' in err or p.returncode in (-9, 134, -6):
-            res.status = 'OOM'
-        res.log = (out[-1500:] + '\n' + err[-1500:])
+    if killed:
+        res.status = 'TIMEOUT'
         return res
-    msgs = []
-    results = None
-    for item in js:
-        if 'messageText' in item:
-            msgs.append(item['messageText'])
-            if item.get('messageType') == 'ERROR':
-                res.log += item['messageText'] + '\n'
-        if 'result' in item:
-            results = item['result']
-    alltxt = '\n'.join(msgs)
-    for m in re.finditer(r'(\d+) variables, (\d+) clauses', alltxt):
-        res.vars = max(res.vars, int(m.group(1)))
-        res.clauses = max(res.clauses, int(m.group(2)))
-    for m in re.finditer(r'Runtime Solver: ([0-9.]+)s', alltxt):
-        res.solver_s += float(m.group(1))
-    if results is None:
-        res.status = 'ERROR'
-        res.log += alltxt[-3000:]
-        return res
+    if trace_property:
+        try:
+            js = json.loads(out)
+        except Exception:
+            res.log = out[-2000:]
+            return res
+        for item in js:
+            if 'result' in item:
+                results = item['result']
+    else:
+        res.log = ''.join(tail)[-2500:]
+        if not results:
+            if 'bad_alloc' in res.log or 'Out of memory' in res.log or p.returncode in (-9, 134, -6):
+                res.status = 'OOM'
+            return res
     res.nprops = len(results)
     unwind_fail = False
     for r in results:
